@@ -19,10 +19,31 @@ Proof. vm_compute. reflexivity. Qed.
 Lemma parser_loops_ok : forallb (loop_ok consuming) parser_loops = true.
 Proof. vm_compute. reflexivity. Qed.
 
-(* loops whose progress needs NO assumption about any call: all but these four (by line) *)
-Definition loops_needing_contract : list N := [554; 877; 1107; 1941].
+(* loops whose progress needs NO assumption about any call: all but these four, named by their STABLE id
+   "<method>#<ordinal of the while within the method>" (never by source line: lines move with every edit of parser.py):
+     parse_document#0        the top-level loop of parse_document          (calls parse_section)
+     parse_section_marker#1  the children loop of parse_section_marker     (calls parse_section)
+     parse_section#0         the children loop of a block in parse_section (calls parse_section / parse_literal_zone)
+     parse_list#0            the item loop of parse_list                   (calls parse_list_item) *)
+Definition loops_needing_contract : list str :=
+  [ [112; 97; 114; 115; 101; 95; 100; 111; 99; 117; 109; 101; 110; 116; 35; 48];   (* parse_document#0 *)
+    [112; 97; 114; 115; 101; 95; 115; 101; 99; 116; 105; 111; 110; 95; 109; 97; 114; 107; 101; 114; 35; 49];   (* parse_section_marker#1 *)
+    [112; 97; 114; 115; 101; 95; 115; 101; 99; 116; 105; 111; 110; 35; 48];   (* parse_section#0 *)
+    [112; 97; 114; 115; 101; 95; 108; 105; 115; 116; 35; 48] ]. (* parse_list#0 *)
 Lemma parser_loops_ok_without_calls :
-  forallb (fun l => loop_ok no_call l || existsb (N.eqb (pl_line l)) loops_needing_contract) parser_loops = true.
+  forallb (fun l => loop_ok no_call l || str_in (pl_id l) loops_needing_contract) parser_loops = true.
+Proof. vm_compute. reflexivity. Qed.
+(* the four ids name loops that exist, each exactly once, and every id of the list is unique: the exemption cannot
+   silently go stale (a renamed method / a while added before one of them in its method breaks this) *)
+Lemma loops_needing_contract_exist :
+  forallb (fun i => Nat.eqb (length (filter (fun l => str_eqb (pl_id l) i) parser_loops)) 1) loops_needing_contract = true.
+Proof. vm_compute. reflexivity. Qed.
+Lemma parser_loop_ids_unique :
+  forallb (fun l => Nat.eqb (length (filter (fun l' => str_eqb (pl_id l') (pl_id l)) parser_loops)) 1) parser_loops = true.
+Proof. vm_compute. reflexivity. Qed.
+(* ... and they really need it: without the contract each of the four fails the EOF-aware check (the list is minimal) *)
+Lemma loops_needing_contract_minimal :
+  forallb (fun l => negb (str_in (pl_id l) loops_needing_contract) || negb (loop_ok no_call l)) parser_loops = true.
 Proof. vm_compute. reflexivity. Qed.
 
 (* every `while` of class Parser is in the list: count pinned against the translator's own count (it fails
@@ -39,14 +60,15 @@ Proof.
 Qed.
 
 Theorem parser_loop_progress_no_contract l n pos r :
-  In l parser_loops -> ~ In (pl_line l) loops_needing_contract -> (pos < n)%nat ->
+  In l parser_loops -> ~ In (pl_id l) loops_needing_contract -> (pos < n)%nat ->
   cond_val (is_eof n pos) (pl_guard l) true -> exec_b no_call n (pl_body l) pos r ->
   match r with RExit => True | RFall p | RCont p => (pos < p)%nat /\ (p < n)%nat end.
 Proof.
   intros Hin Hnot. apply loop_ok_sound.
   pose proof (proj1 (forallb_forall _ _) parser_loops_ok_without_calls l Hin) as H. cbn beta in H.
   apply orb_true_iff in H as [H|H]; [exact H|]. exfalso. apply Hnot.
-  apply existsb_exists in H as (x & Hx & E). apply N.eqb_eq in E. subst x. exact Hx.
+  clear - H. induction loops_needing_contract as [|x r IH]; cbn in H; [discriminate|].
+  apply orb_true_iff in H as [E|E]; [left; symmetry; apply str_eqb_eq; exact E|right; auto].
 Qed.
 
 Theorem parser_loop_terminates l n pos k :
@@ -70,8 +92,9 @@ Proof.
         (conj pin_parser_parse_list_prologue (conj pin_parser_check_deep_nesting_head pin_parser_bracket_depth_writes))))).
 Qed.
 
-(* report for the harness (extracted): (line, method, syntactic check, EOF-aware check with the call contract,
-   EOF-aware check with no assumption about calls) *)
-Definition report_loops : list (N * str * bool * bool * bool) :=
-  map (fun l => (pl_line l, pl_fn l, loop_consumes l, loop_ok consuming l, loop_ok no_call l)) parser_loops.
+(* report for the harness (extracted): (stable id, line [diagnostic], method, syntactic check, EOF-aware check with the
+   call contract, EOF-aware check with no assumption about calls, exempted by loops_needing_contract) *)
+Definition report_loops : list (str * N * str * bool * bool * bool * bool) :=
+  map (fun l => (pl_id l, pl_line l, pl_fn l, loop_consumes l, loop_ok consuming l, loop_ok no_call l,
+                 str_in (pl_id l) loops_needing_contract)) parser_loops.
 Definition report_max_nesting : N := parser_max_nesting_depth.
